@@ -105,6 +105,8 @@ def gen_graph(rng):
             nodes.append(Node(nm, "ref", tgt))
             if tgt in lists:
                 lists.append(nm)
+            if tgt in numeric:
+                numeric.append(nm)
         elif r < 0.76 and lists:
             tgt = rng.choice(lists)
             val = resolve_lit(nodes, tgt)
@@ -137,6 +139,9 @@ def gen_graph(rng):
             nodes.append(Node(nm, "expr", ast))
             if len(expr_refs(ast)) >= 2:
                 feats.add("multi-ref")
+            if any(x.kind == "expr" and x.name in expr_refs(ast) for x in nodes[:-1]):
+                feats.add("expr-of-expr")       # needs more than one evaluation round
+            numeric.append(nm)                  # later expressions may build on this one
         else:
             m = rng.randrange(4)
             if m == 0:
@@ -481,7 +486,7 @@ def run(ctx):
         ctx.count(("g", repr(c["files"])), bool(feats), "+".join(sorted(feats)) or "plain",
                   sample={"files": c["files"]} if feats and len(ctx.samples) < 4 else None)
     model_correspondence(ctx, [c for c, _ in cases])
-    for need in ("prefix", "indexed", "unresolvable", "multi-ref"):
+    for need in ("prefix", "indexed", "unresolvable", "multi-ref", "expr-of-expr"):
         if not any(need in k for k in ctx.classes):
             raise RuntimeError(f"generator starved: no graph with feature {need}")
 
